@@ -83,6 +83,14 @@ class _Expr(ast.NodeTransformer):
 
     def visit_Compare(self, n):
         self.generic_visit(n)
+        # membership in a display: a list display reads as a tuple; a one-element display is an (in)equality
+        if len(n.ops) == 1 and isinstance(n.ops[0], (ast.In, ast.NotIn)) and isinstance(n.comparators[0], (ast.List, ast.Tuple, ast.Set)) \
+                and not any(isinstance(e, ast.Starred) for e in n.comparators[0].elts):
+            elts = n.comparators[0].elts
+            if len(elts) == 1:
+                n = ast.Compare(left=n.left, ops=[ast.Eq() if isinstance(n.ops[0], ast.In) else ast.NotEq()], comparators=[elts[0]])
+            elif isinstance(n.comparators[0], ast.List):
+                n.comparators = [ast.Tuple(elts=elts, ctx=ast.Load())]
         t = _truth(n)
         if t is not n:
             # len(x) > 0 as a value: bool(x) (the test contexts strip the bool again)
@@ -118,6 +126,13 @@ class _Expr(ast.NodeTransformer):
 
     def visit_Call(self, n):
         self.generic_visit(n)
+        # dict() / list() / tuple(): the empty display;  (lambda: E)(): E
+        if isinstance(n.func, ast.Name) and not n.args and not n.keywords and n.func.id in ("dict", "list", "tuple"):
+            return {"dict": ast.Dict(keys=[], values=[]), "list": ast.List(elts=[], ctx=ast.Load()),
+                    "tuple": ast.Tuple(elts=[], ctx=ast.Load())}[n.func.id]
+        if isinstance(n.func, ast.Lambda) and not n.args and not n.keywords and not n.func.args.args and not n.func.args.kwonlyargs \
+                and not n.func.args.vararg and not n.func.args.kwarg:
+            return n.func.body
         if isinstance(n.func, ast.Name) and n.func.id == "range" and len(n.args) == 2 and isinstance(n.args[0], ast.Constant) \
                 and n.args[0].value == 0 and not n.keywords:
             n.args = [n.args[1]]
